@@ -107,56 +107,7 @@ static void build(vf::Plan &plan, const vf::Opts &o)
                    run_case(c, ref::E32, U32V{0x20AC, v}, all);
                },
                [](uint64_t i) { return strf("value %X", i < 32 ? (1u << i) : (0xFFFFFFFFu >> (i - 32))); });
-    // ---- position sweep: what a scanner does with a malformed unit must not depend on how much well-formed text it has
-    // already skipped (block-wise pre-scans, unrolled loops, internal buffers of 16 / 32 / 64 / 256 units)
-    {
-        struct Pat {
-            ref::Enc enc;
-            U32V units;
-        };
-        static const std::vector<Pat> PATS = {
-            {ref::E8, {0x80}}, {ref::E8, {0xC3}}, {ref::E8, {0xE2, 0x82}}, {ref::E8, {0xF0, 0x9F, 0x98}}, {ref::E8, {0xC0, 0xAF}},
-            {ref::E8, {0xED, 0xA0, 0x80}}, {ref::E8, {0xF4, 0x90, 0x80, 0x80}}, {ref::E8, {0xFF}}, {ref::E8, {0xE2, 0x28}},
-            {ref::E8, {0xC3, 0xA9}}, {ref::E8, {0xE2, 0x82, 0xAC}}, {ref::E8, {0xF0, 0x9F, 0x98, 0x80}},
-            {ref::E16, {0xD800}}, {ref::E16, {0xDC00}}, {ref::E16, {0xDC00, 0xD800}}, {ref::E16, {0xD83D, 0xDE00}}, {ref::E16, {0xFFFF}},
-            {ref::E32, {0x110000}}, {ref::E32, {0xD800}}, {ref::E32, {0xFFFFFFFFu}}, {ref::E32, {0x1F600}}};
-        const unsigned K = T ? 300 : 70;
-        static const unsigned SUF[3] = {0, 1, 7};
-        auto mk = [](uint64_t i, unsigned K, ref::Enc &enc) {
-            unsigned off = (unsigned)vf::take(i, K + 1), suf = SUF[vf::take(i, 3)], fill = (unsigned)vf::take(i, 2);
-            const Pat &p = PATS[vf::take(i, PATS.size())];
-            enc = p.enc;
-            U32V s;
-            // filler: ASCII, or (fill == 1) the 2-byte / BMP character U+00E9 in the source encoding
-            for (unsigned k = 0; k < off; ++k) {
-                if (fill && p.enc == ref::E8) {
-                    if (k + 1 < off) {
-                        s.push_back(0xC3);
-                        s.push_back(0xA9);
-                        ++k;
-                    } else
-                        s.push_back('a');
-                } else
-                    s.push_back(fill ? 0xE9 : 'a' + k % 26);
-            }
-            for (uint32_t u : p.units) s.push_back(u);
-            for (unsigned k = 0; k < suf; ++k) s.push_back('z');
-            return s;
-        };
-        plan.stage(strf("position sweep: %zu well-formed / malformed units behind 0..%u units of filler (ASCII, U+00E9), 0/1/7 units after, all routes",
-                        PATS.size(), K),
-                   (uint64_t)(K + 1) * 3 * 2 * PATS.size(),
-                   [=](uint64_t i, Ctx &c) {
-                       ref::Enc enc;
-                       U32V s = mk(i, K, enc);
-                       run_case(c, enc, s, all);
-                   },
-                   [=](uint64_t i) {
-                       ref::Enc enc;
-                       U32V s = mk(i, K, enc);
-                       return show_units(enc, s);
-                   });
-    }
+    add_position_sweep(plan, T ? 300 : 70, all);
 #endif
 }
 
